@@ -1,7 +1,6 @@
 package eng
 
 import (
-	"sync/atomic"
 	"context"
 	"errors"
 	"fmt"
@@ -10,6 +9,7 @@ import (
 	"sort"
 	"strings"
 	"sync"
+	"sync/atomic"
 	"time"
 
 	incr "github.com/wcharczuk/go-incr"
@@ -83,22 +83,22 @@ func (e Event) String() string {
 
 // NRef is the harness's handle on a node.
 type NRef struct {
-	ID    int
-	Kind  string // Var Return Map Map2 MapN Cutoff Always BindLhs BindMain
-	Inc   incr.Incr[int]
-	INode incr.INode
-	Var   incr.VarIncr[int]
-	MapN  incr.MapNIncr[int, int]
-	Decl  []int // the inputs as the harness declared them (MapN: current)
-	Scope int   // -1 = top level, else the bind (lhs-change id) whose function created it
-	Gen   int   // generation of that bind's function run that created it
-	F1    Fn1
-	F2    Fn2
-	FN    string
-	Cut   string
-	Eq    bool
-	Bind  *BRef
-	Const int // Return value
+	ID      int
+	Kind    string // Var Return Map Map2 MapN Cutoff Always BindLhs BindMain
+	Inc     incr.Incr[int]
+	INode   incr.INode
+	Var     incr.VarIncr[int]
+	MapN    incr.MapNIncr[int, int]
+	Decl    []int // the inputs as the harness declared them (MapN: current)
+	Scope   int   // -1 = top level, else the bind (lhs-change id) whose function created it
+	Gen     int   // generation of that bind's function run that created it
+	F1      Fn1
+	F2      Fn2
+	FN      string
+	Cut     string
+	Eq      bool
+	Bind    *BRef
+	Const   int  // Return value
 	Fire    bool // Sentinel: its function reports 'stale' the next time it is asked (one shot)
 	Fired   bool // Sentinel: it reported 'stale' during the pass being run
 	Watched int  // Sentinel: the node it watches (-1 once unwatched)
@@ -136,7 +136,7 @@ type Sample struct {
 	Reg      []int
 	ObsVals  [][2]int
 	Vals     [][2]int
-	Next     int // the creation counter after the operation
+	Next     int           // the creation counter after the operation
 	Edges    map[int][]int // registered node -> its linked inputs (sorted ids), sentinels left out
 }
 
@@ -179,7 +179,7 @@ type Exec struct {
 	Ops       []Op
 	Samples   []Sample
 	InPass    bool
-	Par       int // 0 = serial deterministic graph; otherwise the graph's parallelism
+	Par       int  // 0 = serial deterministic graph; otherwise the graph's parallelism
 	EraseEq   bool // the cutoff-free twin of C11: CutoffEqual becomes an identity map, VarEqual a plain Var
 	Sorted    bool // compare events with the model as multisets (parallel graphs; nodes wider than the edge index threshold)
 	// hooks for oracles
